@@ -408,6 +408,9 @@ fn run_tape_sub(
                     failure_persistence: None,
                     rng_seed: RngSeed::Fixed(tseed),
                     max_shrink_iters: 4000,
+                    // a failing run must end too: shrinking stops after 40 s per worker (cases of
+                    // the long-running sub-checks take seconds each)
+                    max_shrink_time: 40_000,
                     max_global_rejects: 1 << 30,
                     ..Config::default()
                 });
